@@ -136,9 +136,15 @@ func (t *Transport) DialPeer(ctx context.Context, peerID peer.ID, as string) (li
 
 	// abort if we already have a peer with the same addr connected
 	ok, err := CheckAlreadyConnected(t, as, peerID)
-	if ok || err != nil {
+	if err != nil {
 		// returns an error if already connected w/ different peer id
 		return nil, false, err
+	}
+	if ok {
+		// already connected to the requested peer: that link is the result of the dial
+		if elnk, elnkOk := t.LookupLinkWithAddr(as); elnkOk && elnk.GetRemotePeer() == peerID {
+			return elnk, false, nil
+		}
 	}
 
 	var dl *Dialer
